@@ -346,7 +346,14 @@ where
                     match next {
                         // Wait for notification when the stream goes pending
                         Poll::Pending       => {
-                            stream_core.lock().unwrap().notify_stream_closed = Some(desync_waker.clone());
+                            let mut stream_core = stream_core.lock().unwrap();
+
+                            if stream_core.closed {
+                                // The output stream was dropped while we were busy (so it couldn't notify us): stop reading from the input
+                                return false;
+                            }
+
+                            stream_core.notify_stream_closed = Some(desync_waker.clone());
                             return true
                         },
 
